@@ -42,8 +42,18 @@ def _wrap(gen, method, functions):
 
     g.__name__ = gen.__name__
     g.functions = functions
-    g.assumed = ["xobjects/capi.py:gen_fun_kernel / gen_c_decl_from_kernel (declaration line and index-argument numbering: "
-                 "assumed here, exercised natively by compiling and calling the emitted functions)"] if method != "offset" else []
+    g.assumed = ["xobjects/capi.py:gen_c_decl_from_kernel (text of the declaration line: assumed in the accessor proofs; gen_fun_kernel's argument list "
+                 "is verified separately for paths of up to 3 parts, and the whole is exercised natively by compiling and calling the emitted functions)"] if method != "offset" else []
+    return g
+
+
+def _wrap_plain(gen, functions):
+    def g():
+        obs = gen()
+        g.interp = getattr(gen, "interp", None)
+        return obs
+    g.__name__ = gen.__name__
+    g.functions = functions
     return g
 
 
@@ -76,8 +86,9 @@ class CapiCheck:
                    "product/word the documented layout prescribes.",
             "C07": "Proved: the setter performs exactly one store, at AddrSpec(path), of the width of the leaf type, of the passed "
                    "value, and dereferences nothing else; the address arithmetic is the one proved for C02. Bounded: bytes "
-                   "outside the element unchanged as observed from Python for every path/index of the grammar slice. The "
-                   "sanitizer clause (int64 overflow, bounds inside the object image) is covered only by the bounded native run.",
+                   "outside the element unchanged as observed from Python for every path/index of the grammar slice; the emitted "
+                   "source compiled with clang ASan+UBSan and every accessor called on objects in exactly sized heap blocks "
+                   "(the sanitizer clause is decided by this bounded run only).",
             "C15": "Proved: every pointer type written by the generator (casts and declarations, all part shapes, all accessor "
                    "kinds) is prefixed by the global-memory qualifier placeholder; specialize_source is checked separately.",
         }[prop]
@@ -88,10 +99,14 @@ class CapiCheck:
         t.append(("<gen>", _wrap(gens["capi.gen_method_offset"], "offset", OFFSET_FUNCS)))
         for m in capi_vc.METHODS:
             t.append(("<gen>", _wrap(gens["capi.gen_method_" + m], m, [(CAPI, "gen_method_" + m)] + METHOD_FUNCS)))
+        ex = dict((g.__name__, g) for _, g in capi_vc._EXTRA_TARGETS)
         if self.PROP == "C15":
             from . import specsrc_vc
 
+            t.append(("<gen>", _wrap_plain(ex["capi.declarations"], [(CAPI, "gen_typedef"), (CAPI, "gen_c_arg_from_arg")])))
             t += specsrc_vc.targets(self.PROP)
+        if self.PROP in ("C02", "C07"):
+            t.append(("<gen>", _wrap_plain(ex["capi.gen_fun_kernel"], [(CAPI, "gen_fun_kernel")])))
         if self.PROP == "C02":
             # the Python side of the claim: the library's own accessors address AddrSpec too (views: HandleInv), and the class-layout
             # invariants assumed on path parts are postconditions of the metaclasses
@@ -108,6 +123,14 @@ class CapiCheck:
             return specsrc_native.bounded_c15(tier, seed)
         ev, d, viol, samples = capi_native.run(tier, seed)
         viol = [v for v in viol if self._mine(v)]
+        san = None
+        if self.PROP == "C07":
+            from . import sanitizer_native
+
+            san = sanitizer_native.run(tier, seed)
+            viol = viol + san["violations"]
+            ev += san["evaluations"]
+            samples = samples + san["samples"]
         return {
             "evaluations": ev,
             "distinct_nontrivial": len(d),
@@ -118,10 +141,11 @@ class CapiCheck:
             "exhaustive": False,
             "violations": _by_key(viol),
             "samples": samples,
+            "sanitizer_run": (san["rule"] if san else None),
         }
 
     def _mine(self, v):
-        if v.get("case_key") == "native:crash":
+        if v.get("case_key") == "native:crash" or str(v.get("case_key", "")).startswith("sanitizer"):
             return True
         is_set = "_set" in v["accessor"]
         return is_set if self.PROP == "C07" else True
